@@ -131,13 +131,13 @@ class Session(BusSession):
     def target_name(self, target):
         return {'N': NAME, 'uC': self.uname['C'] if self.uname.get('C') else b':1.998', 'uB': self.uname['B'] if self.uname.get('B') else b':1.999', 'closed': self.closed_name, 'unowned': UNOWNED, 'bus': R.BUS}[target]
 
-    def build(self, op):
+    def build(self, op, pad=True):
         _, l, target, kind, flags = op
         c = self.slots[l]
         s = self.bus.next_serial(c)
         self.tok += 1
         tok = b'T%d' % self.tok
-        body = [R.S(tok), R.S(PAD)]
+        body = [R.S(tok), R.S(PAD if pad else b'p')]
         dest = self.target_name(target)
         if kind == 'call':
             m = R.method_call(s, dest, '/t', 't.i', 'Ping', body, flags=flags)
@@ -377,7 +377,8 @@ class Session(BusSession):
             self.backlog = []
         elif kind == 'race':
             first, snd, victim = op[1], op[2], op[3]
-            m, tok = self.build(snd)
+            # a short message: the bus reads it in one go, so that it is complete in the very iteration that sees the victim's EOF
+            m, tok = self.build(snd, pad=False)
             cv = self.slots[victim]
             if first == 0:
                 self.bus.send(self.slots[snd[1]], R.encode_message(m))
